@@ -68,8 +68,9 @@ Definition parse_token (t:tok) (stk:list ast) : list ast + perr :=
                    if (k <? 0)%Z then inr NegArity else
                    match stk with
                    | [] => inr NoFun
-                   | f :: r => let n := Z.to_nat k in
-                       if (length r <? n)%nat then inr FewArgs else inl (FunCall f (rev (firstn n r)) m :: skipn n r) end end
+                   | f :: r => (* compared in Z: the arity can be astronomically large, the stack cannot *)
+                       if (Z.of_nat (length r) <? k)%Z then inr FewArgs
+                       else let n := Z.to_nat k in inl (FunCall f (rev (firstn n r)) m :: skipn n r) end end
         end
       else if c =? IEUNG then
         match rest with
